@@ -277,6 +277,20 @@ fn compute_invariant_positions(
         let mut invariant: HashSet<usize> = (0..arity).collect();
 
         for rule in &rules {
+            // The magic guard repeats the head's argument at each bound position as an
+            // argument of a body atom. That is only meaningful for a plain variable or a
+            // constant: a computed head term (`p(A % 2, A) <- ...`) cannot be matched
+            // against the seed, so such a position can never be treated as bound.
+            for pos in 0..arity {
+                match rule.head.args.get(pos) {
+                    Some(Term::Variable(_)) => {}
+                    Some(t) if is_ground(t) => {}
+                    _ => {
+                        invariant.remove(&pos);
+                    }
+                }
+            }
+
             // Find recursive body atoms (same relation as head)
             for pred in &rule.body {
                 if let BodyPredicate::Positive(atom) = pred {
